@@ -129,6 +129,17 @@ CHECKS = [
         "note": "trusted: ref/ns.py; move set reduced for >=4 items; the hash-seed pass is sampled and reported separately (hashseed_runs), never used to claim exhaustiveness",
     },
     {
+        "property_id": "C11",
+        "level": "exploration",
+        "design_ref": "DESIGN.md 4/C11",
+        "technique": "exhaustive enumeration of pairs (thorough: triples) of definition symbols x placements against a cross-definition predicate",
+        "text": "All 14,580 unordered pairs of 180 definition symbols (name x version incl. major 0 x kind x port-ID none/p/q x sealed/extent 64/extent 128), "
+        "placed entirely in the target namespace, with one member in a same-named lookup root and referenced (transitive), or present there but "
+        "unreferenced; thorough adds services with independent request/response layouts and all triples over 60 symbols. Accepted iff the "
+        "port-ID clause (over direct definitions) and the minor-version clause (over direct and transitive ones) hold; every rejection is InvalidDefinitionError.",
+        "note": "trusted: cross() in c11.py (the statement of C11); symbol alphabet is finite",
+    },
+    {
         "property_id": "C12",
         "level": "exploration",
         "design_ref": "DESIGN.md 4/C12",
@@ -193,7 +204,5 @@ CHECKS = [
     },
 ]
 
-_TODO = "check not built yet in this round (see DESIGN.md 9, implementation order)"
-NOT_APPLICABLE = [
-    {"property_id": "C%02d" % i, "reason": _TODO} for i in range(1, 20) if "C%02d" % i not in {c["property_id"] for c in CHECKS}
-]
+NOT_APPLICABLE = []  # every property is decided by bounded exhaustive exploration (DESIGN.md section 6)
+assert sorted(c["property_id"] for c in CHECKS) == ["C%02d" % i for i in range(1, 20)]
